@@ -22,7 +22,7 @@ def oracle(rng, cfg, xs, long=False):
     ys = (xs[:k] + tail)[:top]
     if len(ys) <= k:
         return bad, 0
-    v = rng.choice([0, 1, 1, 2])     # the caller's container: float array, int array or list of ints when the values are integers
+    v = rng.randint(0, 209)     # how the caller holds the sample and writes the configuration (see nnm.as_input, nnm.build)
     a, b, c = nnm.run_impl(cfg, xs, variant=v), nnm.run_impl(cfg, ys, variant=v), nnm.run_impl(cfg, xs[:k], variant=v)
     if a["exc"] or b["exc"] or c["exc"]:
         return bad, 3   # well-formedness is C11's business
